@@ -92,6 +92,11 @@ class Ctx:
         return c
 
     def _assumed_ok(self, subj, _d=0):
+        if subj[0] == "payload" and subj[2] == "Ok/Some":
+            i_ = subj[1][1] if subj[1][0] == "trybranch" else subj[1]
+            if i_[0] == "call" and i_[1] in ("std::option::Option::map", "std::result::Result::map") and len(i_[2]) == 2 and i_[2][1][0] == "fn" and _ctor_of(i_[2][1]) is None:
+                # the payload of x.map(f) for a function item f: f(payload of x), e.g. `s.strip_prefix(p).map(str::parse::<u64>)`
+                subj = ok_payload(i_)
         r = assumed_ok(self.assumptions, subj)
         if r is None and self.assumptions and subj[0] == "call" and (subj[1] in SOMENESS_PRESERVING or subj[1] in OKNESS_PRESERVING) and subj[2] and _d < 4:
             # helper(..).map(f).ok_or(e): Ok exactly when the helper's result is Some in this world
@@ -1467,6 +1472,11 @@ def ok_payload(t, tag="Ok/Some"):
                 # x.map(Some) / x.map(Wrapper::Variant): the constructor applied to the payload of x
                 par_, var_ = _ctor_of(a[2][1])
                 alts2.append(("__value__", ("agg", par_, var_, (("fld", "0", ok_payload(a[2][0])),))))
+            elif a[0] == "call" and a[1] in ("std::option::Option::map", "std::result::Result::map") and len(a[2]) == 2 and a[2][1][0] == "fn":
+                # x.map(path::to::function): that function applied to the payload of x
+                f_ = a[2][1]
+                from .mir import strip_generics as _sg
+                alts2.append(("__value__", ("call", _sg(f_[1]), (ok_payload(a[2][0]),), ("meta", f_[2] if len(f_) > 2 and f_[2] else f_[1], f_[1]))))
             else:
                 alts2.append(a)
         if any(x[0] in ("__payload_of__", "__value__") for x in alts2):
